@@ -15,11 +15,19 @@ pub fn unix_time_unit_offset() -> u64 {
 
 #[inline]
 pub fn sleep_for_ms(ms: u64) {
+    #[cfg(sentinel_verif)]
+    if verif_clock::virtual_sleep_ns(ms.saturating_mul(1_000_000)) {
+        return;
+    }
     std::thread::sleep(std::time::Duration::from_millis(ms));
 }
 
 #[inline]
 pub fn sleep_for_ns(ns: u64) {
+    #[cfg(sentinel_verif)]
+    if verif_clock::virtual_sleep_ns(ns) {
+        return;
+    }
     std::thread::sleep(std::time::Duration::from_nanos(ns));
 }
 
@@ -54,6 +62,10 @@ pub fn format_time_nanos_curr() -> String {
 }
 
 pub fn curr_time_millis() -> u64 {
+    #[cfg(sentinel_verif)]
+    if let Some(ns) = verif_clock::now_ns() {
+        return (ns / 1_000_000) as u64;
+    }
     // todo: conditional compilation, `config::use_cache_time()`
     let ticker_time = curr_time_millis_with_ticker();
     if ticker_time > 0 {
@@ -65,6 +77,10 @@ pub fn curr_time_millis() -> u64 {
 
 #[inline]
 pub fn curr_time_nanos() -> i128 {
+    #[cfg(sentinel_verif)]
+    if let Some(ns) = verif_clock::now_ns() {
+        return ns as i128;
+    }
     OffsetDateTime::now_utc().unix_timestamp_nanos()
 }
 
@@ -74,6 +90,86 @@ pub fn milli2nano<T: Into<i128>>(t: T) -> i128 {
 }
 
 pub use ticker::*;
+
+/// Verification hook (only with `--cfg sentinel_verif`): a process-wide virtual clock.
+/// When installed, `curr_time_millis`/`curr_time_nanos` return the virtual time and
+/// `sleep_for_ms`/`sleep_for_ns` advance it instead of blocking the thread.
+/// Plain `std` atomics on purpose: the clock is harness state, not library state.
+#[cfg(sentinel_verif)]
+pub mod verif_clock {
+    use std::sync::atomic::{AtomicBool, AtomicI64, AtomicU64, Ordering};
+    use std::sync::Mutex;
+
+    static INSTALLED: AtomicBool = AtomicBool::new(false);
+    static NOW_NS: AtomicI64 = AtomicI64::new(0);
+    static SLEEP_CALLS: AtomicU64 = AtomicU64::new(0);
+    static SLEEP_TOTAL_NS: AtomicU64 = AtomicU64::new(0);
+    static SLEEP_LOG: Mutex<Vec<u64>> = Mutex::new(Vec::new());
+
+    /// Install the virtual clock at `ns` nanoseconds since the unix epoch.
+    pub fn install(ns: i64) {
+        NOW_NS.store(ns, Ordering::SeqCst);
+        INSTALLED.store(true, Ordering::SeqCst);
+    }
+
+    pub fn uninstall() {
+        INSTALLED.store(false, Ordering::SeqCst);
+    }
+
+    pub fn is_installed() -> bool {
+        INSTALLED.load(Ordering::SeqCst)
+    }
+
+    pub fn set_ns(ns: i64) {
+        NOW_NS.store(ns, Ordering::SeqCst);
+    }
+
+    pub fn advance_ns(ns: i64) -> i64 {
+        NOW_NS.fetch_add(ns, Ordering::SeqCst) + ns
+    }
+
+    pub fn now_ns() -> Option<i64> {
+        if INSTALLED.load(Ordering::SeqCst) {
+            Some(NOW_NS.load(Ordering::SeqCst))
+        } else {
+            None
+        }
+    }
+
+    /// Returns true when the sleep was served virtually (clock advanced, sleep logged).
+    pub fn virtual_sleep_ns(ns: u64) -> bool {
+        if !INSTALLED.load(Ordering::SeqCst) {
+            return false;
+        }
+        NOW_NS.fetch_add(ns.min(i64::MAX as u64) as i64, Ordering::SeqCst);
+        SLEEP_CALLS.fetch_add(1, Ordering::SeqCst);
+        SLEEP_TOTAL_NS.fetch_add(ns, Ordering::SeqCst);
+        if let Ok(mut log) = SLEEP_LOG.lock() {
+            if log.len() < 1 << 16 {
+                log.push(ns);
+            }
+        }
+        true
+    }
+
+    /// (number of virtual sleeps, their total in ns) since the last `take_sleep_log`.
+    pub fn sleep_stats() -> (u64, u64) {
+        (
+            SLEEP_CALLS.load(Ordering::SeqCst),
+            SLEEP_TOTAL_NS.load(Ordering::SeqCst),
+        )
+    }
+
+    /// Drains the per-sleep log and resets the counters.
+    pub fn take_sleep_log() -> Vec<u64> {
+        SLEEP_CALLS.store(0, Ordering::SeqCst);
+        SLEEP_TOTAL_NS.store(0, Ordering::SeqCst);
+        match SLEEP_LOG.lock() {
+            Ok(mut log) => std::mem::take(&mut *log),
+            Err(_) => Vec::new(),
+        }
+    }
+}
 
 // provide cached time by a ticker
 pub mod ticker {
